@@ -109,6 +109,9 @@ func (o *C18) AfterTx(w *World, r *TxResult) {
 			o.holders[m.Epoch] = map[string]string{}
 		}
 		o.holders[m.Epoch][val] = canonHolders(m.Holders)
+		if m.Holders == nil {
+			o.holders[m.Epoch][val] = "<absent>"
+		}
 	}
 }
 
